@@ -559,12 +559,42 @@ def _single_child(image_b64, name, fast_load, get_code, count_steps, marker, kin
     return rec
 
 
+def _replay_traced(r):
+    """a recorded CPU-time or wall-time violation is judged untraced anyway: skip the traced attempt"""
+    sg = r.get("signature") or {}
+    return not (sg.get("class") == "stall" or (sg.get("class") == "not_prompt" and sg.get("by") == "cpu"))
+
+
+TRACED_CPU_EXTRA_S = 30   # room for the line tracer itself: a traced run is judged by its step count only
+
+
 def run_single_image(image, name, fast_load, get_code, force_steps, wall=90.0, kind="file", tag="", call=None):
-    """One image in its own fork of the zygote.  A signal or a stall is an outcome."""
+    """One image in its own fork of the zygote.  A signal or a stall is an outcome.
+
+    The CPU and wall budgets are budgets of the load, not of the harness: the line tracer behind the step
+    clock makes pure-Python loops five to ten times slower, so a traced run that runs out of CPU or wall
+    time is re-run untraced and only the untraced run can yield a `cpu` or `stall` verdict (a traced run
+    decides by its deterministic step count)."""
+    traced = bool(force_steps) and sys.version_info >= (3, 9)
+    if traced:
+        rec = _run_single_image(image, name, fast_load, get_code, True, wall + TRACED_CPU_EXTRA_S, kind, tag, call,
+                                CPU_BUDGET_S + TRACED_CPU_EXTRA_S)
+        if rec.get("outcome") not in ("cpu_budget", "stall"):
+            return rec
+        _probe_global("traced run out of CPU or wall time: verdict taken from an untraced re-run")
+    return _run_single_image(image, name, fast_load, get_code, False, wall, kind, tag, call, CPU_BUDGET_S)
+
+
+def _probe_global(what):
+    W.setdefault("late_probes", {})
+    W["late_probes"][what] = W["late_probes"].get(what, 0) + 1
+
+
+def _run_single_image(image, name, fast_load, get_code, force_steps, wall, kind, tag, call, cpu_limit):
     flog = os.path.join(W["rundir"], "fault-%d%s.log" % (os.getpid(), tag))
     marker = os.path.join(W["rundir"], "marker-%d%s" % (os.getpid(), tag))
     r = core.fork_call(_single_child, (core.b64(image), name, fast_load, get_code, force_steps, marker, kind, call),
-                       timeout=wall, faultlog_path=flog, quiet=True, cpu_limit=CPU_BUDGET_S)
+                       timeout=wall, faultlog_path=flog, quiet=True, cpu_limit=cpu_limit)
     entered = False
     try:
         with open(marker, "rb") as f:
@@ -731,6 +761,8 @@ def run_shard(shard):
             pending = rest[1:] + pending
     agg["wall"] = time.time() - t0
     SLOW["seen"] = slow_seen
+    for k, n in W.pop("late_probes", {}).items():
+        _probe(agg, k, n)
     return agg
 
 
@@ -1085,7 +1117,7 @@ def replay_witnesses(findings):
                 jobs.append((f, fid, r))
 
     def one(f, fid, r, k):
-        rec = run_single_image(core.unb64(r["image_b64"]), r["name"], r["fast_load"], r["get_code"], True,
+        rec = run_single_image(core.unb64(r["image_b64"]), r["name"], r["fast_load"], r["get_code"], _replay_traced(r),
                                kind=r.get("storage_object", "file"), tag="w%d" % k, call=r.get("call"))
         v = rec.get("violation")
         ok = v is not None and matches_finding(signature(v), f)
@@ -1202,8 +1234,8 @@ def replay(path):
         rec = {"outcome": "sequence:" + (v["class"] if v else "clean")}
     else:
         img = core.unb64(r["image_b64"])
-        rec = run_single_image(img, r["name"], r["fast_load"], r["get_code"], True, kind=r.get("storage_object", "file"),
-                               call=r.get("call"))
+        rec = run_single_image(img, r["name"], r["fast_load"], r["get_code"], _replay_traced(r),
+                               kind=r.get("storage_object", "file"), call=r.get("call"))
         v = rec.get("violation")
     want = sig_key(r["signature"])
     if v is not None and sig_key(signature(v)) == want:
@@ -1323,6 +1355,7 @@ def run_other_hosts(master, tier, nruns, workers):
 
     def one(tag, exe, flags):
         outp = os.path.join(W["rundir"], "sub-%s.json" % tag)
+        ts = time.time()
         try:
             p = subprocess.run([exe] + flags + ["-B", "-s", os.path.join(core.VERIF_DIR, "sim", "main.py"), "C11",
                                 "--tier", tier, "--seed", str(master), "--runs", str(nruns), "--workers", str(each),
@@ -1334,6 +1367,8 @@ def run_other_hosts(master, tier, nruns, workers):
                 return
             with open(outp) as f:
                 outs.append(json.load(f))
+            if os.environ.get("XDIS_VERIF_TIMING"):
+                sys.stderr.write("[C11 timing] host %s %.1fs\n" % (tag, time.time() - ts))
         except Exception as e:
             errs.append("C11 on host %s: %r" % (tag, e))
 
@@ -1378,6 +1413,7 @@ def main(opts):
     others = []
     if cfg.get("other_host_runs") and not opts.get("no_hosts"):
         others = run_other_hosts(master, tier, cfg["other_host_runs"], workers)
+    t_hosts = time.time() - t0
     # ---- determinism self-test (small): first shard twice more, different worker layout
     det_ok = True
     if not opts.get("no_selftest"):
@@ -1397,7 +1433,11 @@ def main(opts):
     lines = []
     ev_v = {"known": {}, "replays": []}
     n_unknown = report_violations(master, collect_violations(tot, sweep), findings, lines, ev_v)
+    t_rep = time.time() - t0
     witnessed = wr.wait()
+    if os.environ.get("XDIS_VERIF_TIMING"):
+        sys.stderr.write("[C11 timing] runs %.1f hosts %.1f report %.1f witnesses %.1f\n" % (
+            t_runs, t_hosts if others else t_runs, t_rep, time.time() - t0))
     for o in others:
         n_unknown += o["n_unknown"]
         lines.extend(o["lines"])
